@@ -576,6 +576,13 @@ def gen_cases(seed, tier, scale=1.0):
     na = int((60 if tier == "quick" else 1500) * scale)
     nb = int((100 if tier == "quick" else 3000) * scale)
     cases = [gen_pair(seed, i) for i in range(na)] + [gen_single(seed, i) for i in range(nb)]
+    for c in cases:
+        # every reference (solo) build gets a HOME and TMPDIR of its own: caches there must not carry over from the joint build
+        for op in c["jobs"][0]["ops"]:
+            if op["op"] == "invoke" and str(op.get("label", "")).startswith("solo"):
+                env = dict(op.get("env") or {})
+                env.update({"HOME": "$SIDE/home-%s" % op["label"], "TMPDIR": "$SIDE/tmp-%s" % op["label"]})
+                op["env"] = env
     return cases
 
 
